@@ -138,6 +138,10 @@ Inductive loc := LCache | LDef (u : nat) | LLazy (o : nat).
 Inductive access := Rd (l : loc) | Wr (l : loc).
 Record event := { ev_id : nat; ev_tid : nat; ev_acc : access }.
 
+(* lock operations are events too: they carry the happens-before edges *)
+Inductive sync := SAcq | SRel.
+Record sevent := { se_id : nat; se_tid : nat; se_kind : sync }.
+
 Inductive op :=
 | OGet (u : nat)
 | ORead (u : nat)
@@ -187,7 +191,8 @@ Record cfg := {
   g_defs : list (nat * nat);(* content of the loaded definitions *)
   g_lazy : list nat;        (* initialised lazy objects *)
   g_threads : list tstate;
-  g_races : list (nat * nat)
+  g_races : list (nat * nat);
+  g_sync : list sevent      (* the Lock / Unlock events, numbered from the same counter as the accesses *)
 }.
 
 Definition loc_eqb (a b : loc) : bool :=
@@ -228,14 +233,14 @@ Definition emit (t : nat) (a : access) (ts : tstate) (c : cfg) : tstate * cfg :=
   ({| t_code := t_code ts; t_known := t_known ts; t_know := id :: t_know ts; t_out := t_out ts |},
    {| g_next := S id; g_hist := {| ev_id := id; ev_tid := t; ev_acc := a |} :: g_hist c;
       g_lockk := g_lockk c; g_holder := g_holder c; g_cache := g_cache c; g_defs := g_defs c; g_lazy := g_lazy c;
-      g_threads := g_threads c; g_races := map (fun e => (ev_id e, id)) bad ++ g_races c |}).
+      g_threads := g_threads c; g_races := map (fun e => (ev_id e, id)) bad ++ g_races c; g_sync := g_sync c |}).
 
 Definition with_code (code : list micro) (ts : tstate) : tstate :=
   {| t_code := code; t_known := t_known ts; t_know := t_know ts; t_out := t_out ts |}.
 
 Definition put (t : nat) (ts : tstate) (c : cfg) : cfg :=
   {| g_next := g_next c; g_hist := g_hist c; g_lockk := g_lockk c; g_holder := g_holder c; g_cache := g_cache c;
-     g_defs := g_defs c; g_lazy := g_lazy c; g_threads := set_nth t ts (g_threads c); g_races := g_races c |}.
+     g_defs := g_defs c; g_lazy := g_lazy c; g_threads := set_nth t ts (g_threads c); g_races := g_races c; g_sync := g_sync c |}.
 
 (* one step of thread t (no change if t does not exist, has finished, or waits for the mutex) *)
 Definition step (load : nat -> nat) (t : nat) (c : cfg) : cfg :=
@@ -249,13 +254,15 @@ Definition step (load : nat -> nat) (t : nat) (c : cfg) : cfg :=
         | Some _ => c
         | None =>
             let ts' := {| t_code := rest; t_known := t_known ts; t_know := g_lockk c ++ t_know ts; t_out := t_out ts |} in
-            put t ts' {| g_next := g_next c; g_hist := g_hist c; g_lockk := g_lockk c; g_holder := Some t; g_cache := g_cache c;
-                         g_defs := g_defs c; g_lazy := g_lazy c; g_threads := g_threads c; g_races := g_races c |}
+            put t ts' {| g_next := S (g_next c); g_hist := g_hist c; g_lockk := g_lockk c; g_holder := Some t; g_cache := g_cache c;
+                         g_defs := g_defs c; g_lazy := g_lazy c; g_threads := g_threads c; g_races := g_races c;
+                         g_sync := {| se_id := g_next c; se_tid := t; se_kind := SAcq |} :: g_sync c |}
         end
     | MRel :: rest =>
         put t (with_code rest ts)
-            {| g_next := g_next c; g_hist := g_hist c; g_lockk := t_know ts ++ g_lockk c; g_holder := None; g_cache := g_cache c;
-               g_defs := g_defs c; g_lazy := g_lazy c; g_threads := g_threads c; g_races := g_races c |}
+            {| g_next := S (g_next c); g_hist := g_hist c; g_lockk := t_know ts ++ g_lockk c; g_holder := None; g_cache := g_cache c;
+               g_defs := g_defs c; g_lazy := g_lazy c; g_threads := g_threads c; g_races := g_races c;
+               g_sync := {| se_id := g_next c; se_tid := t; se_kind := SRel |} :: g_sync c |}
     | MCacheRead u :: rest =>
         let '(ts1, c1) := emit t (Rd LCache) ts c in
         if mem_nat u (g_cache c)
@@ -266,7 +273,7 @@ Definition step (load : nat -> nat) (t : nat) (c : cfg) : cfg :=
         let '(ts2, c2) := emit t (Wr LCache) ts1 c1 in
         put t {| t_code := rest; t_known := u :: t_known ts2; t_know := t_know ts2; t_out := t_out ts2 |}
             {| g_next := g_next c2; g_hist := g_hist c2; g_lockk := g_lockk c2; g_holder := g_holder c2; g_cache := u :: g_cache c2;
-               g_defs := (u, load u) :: g_defs c2; g_lazy := g_lazy c2; g_threads := g_threads c2; g_races := g_races c2 |}
+               g_defs := (u, load u) :: g_defs c2; g_lazy := g_lazy c2; g_threads := g_threads c2; g_races := g_races c2; g_sync := g_sync c2 |}
     | MRead u :: rest =>
         if mem_nat u (t_known ts)
         then let '(ts1, c1) := emit t (Rd (LDef u)) ts c in
@@ -282,13 +289,13 @@ Definition step (load : nat -> nat) (t : nat) (c : cfg) : cfg :=
         let '(ts1, c1) := emit t (Wr (LLazy o)) ts c in
         put t (with_code rest ts1)
             {| g_next := g_next c1; g_hist := g_hist c1; g_lockk := g_lockk c1; g_holder := g_holder c1; g_cache := g_cache c1;
-               g_defs := g_defs c1; g_lazy := o :: g_lazy c1; g_threads := g_threads c1; g_races := g_races c1 |}
+               g_defs := g_defs c1; g_lazy := o :: g_lazy c1; g_threads := g_threads c1; g_races := g_races c1; g_sync := g_sync c1 |}
     | MWriteDef u v :: rest =>
         if mem_nat u (t_known ts)
         then let '(ts1, c1) := emit t (Wr (LDef u)) ts c in
              put t (with_code rest ts1)
                  {| g_next := g_next c1; g_hist := g_hist c1; g_lockk := g_lockk c1; g_holder := g_holder c1; g_cache := g_cache c1;
-                    g_defs := (u, v) :: g_defs c1; g_lazy := g_lazy c1; g_threads := g_threads c1; g_races := g_races c1 |}
+                    g_defs := (u, v) :: g_defs c1; g_lazy := g_lazy c1; g_threads := g_threads c1; g_races := g_races c1; g_sync := g_sync c1 |}
         else put t (with_code rest ts) c
     end
   end.
@@ -301,7 +308,7 @@ Definition init_thread (locked : bool) (p : list op) : tstate :=
 
 Definition init (locked : bool) (progs : list (list op)) : cfg :=
   {| g_next := 0; g_hist := []; g_lockk := []; g_holder := None; g_cache := []; g_defs := []; g_lazy := [];
-     g_threads := map (init_thread locked) progs; g_races := [] |}.
+     g_threads := map (init_thread locked) progs; g_races := []; g_sync := [] |}.
 
 (* what a goroutine observes when it runs its program alone, from a cold cache *)
 Fixpoint solo_out (load : nat -> nat) (p : list op) (known : list nat) : list nat :=
